@@ -22,6 +22,7 @@ type Result struct {
 
 // pkgInfo collects syntactic facts used to recognise map iteration without type checking.
 type pkgInfo struct {
+	onceNames map[string]bool // variables / struct fields declared as sync.Once
 	mapVars   map[string]bool // package-level variables of map type
 	mapFields map[string]bool // struct field names of map type
 	mapFuncs  map[string]bool // functions returning a map
@@ -44,7 +45,15 @@ func isMapExpr(e ast.Expr) bool {
 }
 
 func collect(files []*ast.File) *pkgInfo {
-	pi := &pkgInfo{mapVars: map[string]bool{}, mapFields: map[string]bool{}, mapFuncs: map[string]bool{}}
+	pi := &pkgInfo{mapVars: map[string]bool{}, mapFields: map[string]bool{}, mapFuncs: map[string]bool{}, onceNames: map[string]bool{}}
+	isOnce := func(e ast.Expr) bool {
+		if se, ok := e.(*ast.SelectorExpr); ok {
+			if x, ok := se.X.(*ast.Ident); ok && x.Name == "sync" && se.Sel.Name == "Once" {
+				return true
+			}
+		}
+		return false
+	}
 	for _, f := range files {
 		for _, d := range f.Decls {
 			switch dd := d.(type) {
@@ -53,6 +62,9 @@ func collect(files []*ast.File) *pkgInfo {
 					switch s := sp.(type) {
 					case *ast.ValueSpec:
 						for i, n := range s.Names {
+							if s.Type != nil && isOnce(s.Type) {
+								pi.onceNames[n.Name] = true
+							}
 							if s.Type != nil && isMapExpr(s.Type) {
 								pi.mapVars[n.Name] = true
 							}
@@ -63,6 +75,11 @@ func collect(files []*ast.File) *pkgInfo {
 					case *ast.TypeSpec:
 						if st, ok := s.Type.(*ast.StructType); ok {
 							for _, fl := range st.Fields.List {
+								if isOnce(fl.Type) {
+									for _, n := range fl.Names {
+										pi.onceNames[n.Name] = true
+									}
+								}
 								if _, ok := fl.Type.(*ast.MapType); ok {
 									for _, n := range fl.Names {
 										pi.mapFields[n.Name] = true
@@ -167,6 +184,7 @@ func Package(paths []string) (map[string]*Result, error) {
 		files = append(files, f)
 	}
 	pi := collect(files)
+	curPkg = pi
 	out := map[string]*Result{}
 	for i, f := range files {
 		res := &Result{}
@@ -212,6 +230,50 @@ func exprString(e ast.Expr) string {
 	return "?"
 }
 
+var curPkg *pkgInfo
+
+// rewriteBlocking replaces blocking synchronisation statements by scheduler-aware forms:
+//   X.Lock()   -> verifBlockUntil(site, func() bool { return X.TryLock() })
+//   X.RLock()  -> verifBlockUntil(site, func() bool { return X.TryRLock() })
+//   O.Do(f)    -> verifOnceDo(&O, f)            (O declared as sync.Once)
+func rewriteBlocking(site string, s ast.Stmt) ast.Stmt {
+	es, ok := s.(*ast.ExprStmt)
+	if !ok {
+		return s
+	}
+	call, ok := es.X.(*ast.CallExpr)
+	if !ok {
+		return s
+	}
+	sel, ok := call.Fun.(*ast.SelectorExpr)
+	if !ok {
+		return s
+	}
+	lit := &ast.BasicLit{Kind: token.STRING, Value: fmt.Sprintf("%q", site)}
+	switch {
+	case (sel.Sel.Name == "Lock" || sel.Sel.Name == "RLock") && len(call.Args) == 0:
+		try := "TryLock"
+		if sel.Sel.Name == "RLock" {
+			try = "TryRLock"
+		}
+		fn := &ast.FuncLit{Type: &ast.FuncType{Params: &ast.FieldList{}, Results: &ast.FieldList{List: []*ast.Field{{Type: ast.NewIdent("bool")}}}},
+			Body: &ast.BlockStmt{List: []ast.Stmt{&ast.ReturnStmt{Results: []ast.Expr{&ast.CallExpr{Fun: &ast.SelectorExpr{X: sel.X, Sel: ast.NewIdent(try)}}}}}}}
+		return &ast.ExprStmt{X: &ast.CallExpr{Fun: ast.NewIdent("verifBlockUntil"), Args: []ast.Expr{lit, fn}}}
+	case sel.Sel.Name == "Do" && len(call.Args) == 1 && curPkg != nil:
+		name := ""
+		switch x := sel.X.(type) {
+		case *ast.Ident:
+			name = x.Name
+		case *ast.SelectorExpr:
+			name = x.Sel.Name
+		}
+		if curPkg.onceNames[name] {
+			return &ast.ExprStmt{X: &ast.CallExpr{Fun: ast.NewIdent("verifOnceDo"), Args: []ast.Expr{&ast.UnaryExpr{Op: token.AND, X: sel.X}, call.Args[0]}}}
+		}
+	}
+	return s
+}
+
 func pointStmt(site string) ast.Stmt {
 	return &ast.ExprStmt{X: &ast.CallExpr{Fun: ast.NewIdent("verifPoint"), Args: []ast.Expr{&ast.BasicLit{Kind: token.STRING, Value: fmt.Sprintf("%q", site)}}}}
 }
@@ -234,7 +296,7 @@ func instrumentList(fset *token.FileSet, base string, list []ast.Stmt, res *Resu
 		out = append(out, pointStmt(site))
 		res.Points++
 		instrumentStmt(fset, base, s, res)
-		out = append(out, s)
+		out = append(out, rewriteBlocking(site, s))
 	}
 	return out
 }
@@ -293,8 +355,11 @@ func HookSource(pkg string) []byte {
 
 // added by the verification harness through go build -overlay
 
+import "sync"
+
 var VerifPoint func(site string)
 var VerifAtomicEnter, VerifAtomicExit func()
+var VerifBlockUntil func(site string, try func() bool)
 
 func verifPoint(site string) {
 	if f := VerifPoint; f != nil {
@@ -312,6 +377,46 @@ func verifAtomicExit() {
 	if f := VerifAtomicExit; f != nil {
 		f()
 	}
+}
+
+// verifBlockUntil stands for a blocking lock operation: under the cooperative scheduler the thread yields until
+// try succeeds; without it, it spins on try.
+func verifBlockUntil(site string, try func() bool) {
+	if f := VerifBlockUntil; f != nil {
+		f(site, try)
+		return
+	}
+	for !try() {
+	}
+}
+
+type verifOnceSt struct{ running, done bool }
+
+var verifOnceState = map[*sync.Once]*verifOnceSt{}
+
+// verifOnceDo stands for sync.Once.Do: a second caller that arrives while the first is still inside yields to the
+// scheduler instead of blocking the operating system thread. Only one logical thread runs at a time, so the state map
+// needs no lock under the scheduler; without the scheduler the real Once is used directly.
+func verifOnceDo(o *sync.Once, f func()) {
+	if VerifBlockUntil == nil {
+		o.Do(f)
+		return
+	}
+	st := verifOnceState[o]
+	if st == nil {
+		st = &verifOnceSt{}
+		verifOnceState[o] = st
+	}
+	if st.done {
+		return
+	}
+	if st.running {
+		VerifBlockUntil("sync.Once.Do", func() bool { return st.done })
+		return
+	}
+	st.running = true
+	o.Do(f)
+	st.done = true
 }
 `, pkg))
 }
